@@ -431,7 +431,9 @@ func (h *Heap) pendingID(name string) int {
 
 // pendSym names the contents a pending havoc left in a component: the same symbol in every copy of the heap.
 func (e *Engine) pendSym(h *Heap, name, sort string) string {
-	return e.global(fmt.Sprintf("Hv.%s@%d", name, h.pendingID(name)), sort)
+	nm := e.global(fmt.Sprintf("Hv.%s@%d", name, h.pendingID(name)), sort)
+	e.byteRange(name, nm)
+	return nm
 }
 
 // comp returns the current array term of a component, creating its initial version on first use.
@@ -464,7 +466,24 @@ func (e *Engine) initial(name string) string {
 	}
 	nm := e.global("H0."+name, e.comps[name])
 	e.initials[name] = nm
+	e.byteRange(name, nm)
 	return nm
+}
+
+// byteRange: every element of an unconstrained version of the byte store is a byte. Values read by the code get their
+// type range at the read; contracts, however, mention raw elements (le64at(buf, k), buf[k] == ...), and without this
+// axiom a counterexample may assign "bytes" outside 0..255 that no input can realise.
+func (e *Engine) byteRange(name, arr string) {
+	if name != "E.uint8" || e.comps[name] != "(Array Int (Array Int Int))" {
+		return
+	}
+	key := "byterange:" + arr
+	if e.once[key] {
+		return
+	}
+	e.once[key] = true
+	e.useQuant = true
+	e.assumeGlobal(fmt.Sprintf("(forall ((r Int) (j Int)) (! (and (<= 0 (select (select %s r) j)) (<= (select (select %s r) j) 255)) :pattern ((select (select %s r) j))))", arr, arr, arr))
 }
 
 func (e *Engine) setComp(h *Heap, name, term string) {
@@ -478,6 +497,7 @@ func (e *Engine) havocComp(h *Heap, name string) {
 	}
 	h.m[name] = e.fresh("Hv."+name, e.comps[name])
 	h.dirty[name] = true
+	e.byteRange(name, h.m[name])
 }
 
 // compName gives the heap component (and index terms) holding the scalar content of location l.
